@@ -83,6 +83,101 @@ Definition dunder : string := String "_" (String "_" EmptyString).
 
 Definition is_nil {A} (l : list A) : bool := match l with [] => true | _ => false end.
 
+(* ---------------- one-shot iterators ---------------- *)
+(* number of iterators inside v that still have something to give *)
+Fixpoint live (v : value) : nat :=
+  let fix sum (l : list value) : nat := match l with [] => 0 | x :: l' => live x + sum l' end in
+  let fix sump (l : list (value * value)) : nat := match l with [] => 0 | (a, b) :: l' => live a + live b + sump l' end in
+  match v with
+  | VIter [] => 0
+  | VIter l => 1 + sum l
+  | VList l | VTuple l | VSet l | VFrozenSet l | VDeque l | VKeysView l | VValuesView l => sum l
+  | VDict kvs | VDefaultDict kvs | VOrderedDict kvs | VItemsView kvs => sump kvs
+  | _ => 0
+  end.
+
+(* The state of a value after an ACCEPTING check against an annotation: the element-wise checkers iterate the value they are
+   given (all(... for x in value)), so a one-shot iterator reached by the traversal has nothing left afterwards.  The traversal
+   follows the checker: a typing generic whose isinstance test passes hands the elements (keys and values, tuple positions) to
+   the checker registered for its origin in the regenerated tables; every member of a Union / Optional is evaluated in turn.
+   `leaf a v` is asked exactly at an iterator v under an element-wise origin a.  Exact whenever every union member that
+   reaches an iterator accepts (a member that rejects stops at its first non-conforming element). *)
+Section Drain.
+  Variable cfg : checker_cfg.
+  Variable leaf : ann -> value -> bool.
+
+  Definition map_keys (d : value -> value) (kvs : list (value * value)) := map (fun kv => (d (fst kv), snd kv)) kvs.
+  Definition map_items (dk dv : value -> value) (kvs : list (value * value)) := map (fun kv => (dk (fst kv), dv (snd kv))) kvs.
+  (* `for x in v: check x` for a value that is not itself a one-shot iterator *)
+  Definition over_elems (d : value -> value) (v : value) : value :=
+    match v with
+    | VList l => VList (map d l) | VTuple l => VTuple (map d l) | VSet l => VSet (map d l) | VFrozenSet l => VFrozenSet (map d l)
+    | VDeque l => VDeque (map d l) | VKeysView l => VKeysView (map d l) | VValuesView l => VValuesView (map d l)
+    | VDict kvs => VDict (map_keys d kvs) | VDefaultDict kvs => VDefaultDict (map_keys d kvs)
+    | VOrderedDict kvs => VOrderedDict (map_keys d kvs)
+    | VItemsView kvs =>
+        VItemsView (map (fun kv => match d (VTuple [fst kv; snd kv]) with VTuple [k; x] => (k, x) | _ => kv end) kvs)
+    | _ => v
+    end.
+  Definition over_items (dk dv : value -> value) (v : value) : value :=
+    match v with
+    | VDict kvs => VDict (map_items dk dv kvs) | VDefaultDict kvs => VDefaultDict (map_items dk dv kvs)
+    | VOrderedDict kvs => VOrderedDict (map_items dk dv kvs) | VItemsView kvs => VItemsView (map_items dk dv kvs)
+    | _ => v
+    end.
+
+  Fixpoint drain (a : ann) (v : value) {struct a} : value :=
+    match a with
+    | AUnion _ args => (fix go (l : list ann) (v : value) : value := match l with [] => v | m :: l' => go l' (drain m v) end) args v
+    | ANewType s => drain s v
+    | AGeneric _ o args =>
+        if negb (abc_instance o (class_of v)) then v else
+        match origin_checker cfg o with
+        | Some CkIterable =>
+            match v with
+            | VIter _ => if leaf a v then VIter [] else v
+            | _ =>
+                match it_index cfg, args with
+                | 0, a0 :: _ => over_elems (drain a0) v
+                | 1, _ :: a1 :: _ => over_elems (drain a1) v
+                | _, _ => v
+                end
+            end
+        | Some CkMapping =>
+            match args with
+            | [ka; va] => if mp_via_items cfg then match v with VItemsView _ => v | _ => over_items (drain ka) (drain va) v end else v
+            | _ => v
+            end
+        | Some CkItemsView =>
+            match args, v with
+            | [ka; va], VItemsView _ => over_items (drain ka) (drain va) v
+            | _, _ => v
+            end
+        | Some CkTuple =>
+            match v with
+            | VTuple vs =>
+                if tu_len_check cfg && negb (Nat.eqb (List.length vs) (List.length args)) then v
+                else VTuple ((fix zip (l : list ann) (vs : list value) : list value :=
+                                match l, vs with a0 :: l', v0 :: vs' => drain a0 v0 :: zip l' vs' | _, _ => vs end) args vs)
+            | _ => v
+            end
+        | _ => v
+        end
+    | ATupleVar _ e =>
+        if negb (abc_instance TTuple (class_of v)) then v else
+        match origin_checker cfg TTuple, v with
+        | Some CkTuple, VTuple vs => match tu_ell_index cfg with 0 => VTuple (map (drain e) vs) | _ => v end
+        | Some CkIterable, VIter _ => v
+        | Some CkIterable, _ => match it_index cfg with 0 => over_elems (drain e) v | _ => v end
+        | _, _ => v
+        end
+    | _ => v
+    end.
+
+  (* did the accepting check take something out of an iterator inside v *)
+  Definition drains (a : ann) (v : value) : bool := Nat.ltb (live (drain a v)) (live v).
+End Drain.
+
 Section Run.
   Variable pc : pedantic_cfg.
   Variable check : ann -> value -> tvenv -> outcome unit * tvenv.     (* assert_value_matches_type *)
@@ -288,6 +383,13 @@ Section Run.
         | Ok _ => match check a v (a_tv st) with (Ok _, _) => Ok v | (Raise e, _) => Raise e end
         end
     end.
+  (* what the caller holds afterwards: the very object the body returned - with the one-shot iterators the check of the return
+     value went through exhausted *)
+  Definition ret_seen (f : fn) (v : value) : value :=
+    match f_ret f with
+    | Some a => if consumes a v then drain (pc_tables pc) consumes a v else v
+    | None => v
+    end.
   Definition ret_gen (f : fn) (c : call) (inst : option value) (st : astate) (g : genobj) : outcome genobj :=
     match f_ret f with
     | None => Raise PTypeCheckC
@@ -330,7 +432,8 @@ Section Run.
   Definition check_steps (f : fn) : list step := if f_coroutine f then pc_async_steps pc else pc_sync_steps pc.
 
   Definition check_types (f : fn) (c : call) (inst : option value) (bd : body) : outcome value * list jentry :=
-    steps (args_phase f c inst) (invoke f (call_pos f c) c bd) (ret_value f c inst) VNone (check_steps f) astate0 None [].
+    steps (args_phase f c inst) (invoke f (call_pos f c) c bd) (fun st v => match ret_value f c inst st v with Ok v' => Ok (ret_seen f v') | Raise e => Raise e end)
+          VNone (check_steps f) astate0 None [].
 
   Definition g_none : genobj := {| g_bind := []; g_cons := []; g_types := None |}.
   Definition check_types_gen (f : fn) (c : call) (inst : option value) : outcome genobj * list jentry :=
@@ -393,14 +496,12 @@ Definition twin (f : fn) (c : call) (bd : body) : outcome value * list jentry :=
   | Ok b => (bd b [], [(b, [])])
   end.
 
-(* Does checking v against a exhaust a one-shot iterator?  Exact for an iterator passed directly
-   under typing.Iterable[X] (the element-wise checker iterates the value it is given; every other
-   element-wise origin rejects an iterator by its isinstance test before iterating); iterators nested
-   inside other values are outside the part of the model that is compared (the harness only places
-   iterators at the top level). *)
-Definition consumes_model (cfg : checker_cfg) (a : ann) (v : value) : bool :=
+(* Does checking v against a take something out of a one-shot iterator inside v?  At the leaf: an iterator handed to an origin
+   whose registered checker iterates its argument; below that the traversal `drain` of the checker (nested iterators:
+   Optional[Iterable[int]], List[Iterable[int]], Dict[str, Iterable[int]], ...). *)
+Definition leaf_model (cfg : checker_cfg) (a : ann) (v : value) : bool :=
   match a, v with
-  | AGeneric SpTyping TIterable [_], VIter _ =>
-      match origin_checker cfg TIterable with Some CkIterable => true | _ => false end
+  | AGeneric _ o _, VIter _ => match origin_checker cfg o with Some CkIterable => true | _ => false end
   | _, _ => false
   end.
+Definition consumes_model (cfg : checker_cfg) (a : ann) (v : value) : bool := drains cfg (leaf_model cfg) a v.
